@@ -71,6 +71,10 @@ def run(ctx):
             for mode in ('short', 'error'):
                 ops.append(f'fault {kind} {k} {mode} {a}')
         ops.append(f'fault {kind} {n + 5} short {a}')
+        # object history: the faulted call is the FIRST use of the object, which is then serialised again fault-free (every 3rd position)
+        if kind in ('sxg', 'hdr', 'cert', 'bundle'):
+            for k in range(0, n + 1, 3):
+                ops.append(f'fault.retry {kind} {k} {"short" if k % 2 else "error"} {a}')
     ctx.stats = dict(artifacts=cover)
     ctx.both(ops)
     # byte accounting of the CountingWriter under faults delivered as short writes / plain errors (compared with Model/CountingWriter)
